@@ -24,7 +24,7 @@ EXPLANATION = (
     "carries the time-step counter; the dap column carries the state's dap. C07.d: the planting / harvest year lists "
     "derived at initialisation are not mutated in place while another name aliases the same list. C07.e: crop_mature is set only under `<clock> >= crop.Maturity` "
     "where the clock's normal form is the state's own days-after-planting (under CalendarType == 1) or cumulative degree days (under "
-    "CalendarType == 2) of that day - not a delay-adjusted or otherwise shifted clock - and both calendar types are covered. C07.f: crop_mature, crop_dead, harvest_flag and dap are cleared on every path of the season reset (literal setattr loops are expanded). C07.g: the growing-season window excludes the step that starts on the harvest date (the summary is written on the step that ends on it), so the season's length does not depend on the off-season flag. C07.h: the day offset from which a missing harvest date is derived (kept as month/day; seasons recur yearly) has a constant bound <= 364 - a larger offset wraps round the year and cuts every season short. C07.j: both 'another season follows' tests of update_time have the normal form season_counter < n_seasons - 1 on the clock's current counter. NOT decided: the "
+    "CalendarType == 2) of that day - not a delay-adjusted or otherwise shifted clock - and both calendar types are covered. C07.f: crop_mature, crop_dead, harvest_flag and dap are cleared on every path of the season reset (literal setattr loops are expanded). C07.g: the growing-season window excludes the step that starts on the harvest date (the summary is written on the step that ends on it), so the season's length does not depend on the off-season flag. C07.h: the day offset from which a missing harvest date is derived (kept as month/day; seasons recur yearly) has a constant bound <= 364 - a larger offset wraps round the year and cuts every season short. C07.j: both 'another season follows' tests of update_time have the normal form season_counter < n_seasons - 1 on the clock's current counter. C07.k: for a crop whose season lies within a calendar year the last calendar year of the window is dropped from the schedule exactly when the end date (month/day) is on or before the planting day - the test is resolved through locals and negations, its two sides by provenance (end date vs planting date, not the start or harvest date). C07.l: growing_season = True is reached only under planting date reached, harvest date not reached, crop not mature and crop not dead (C07.g now reads chained comparisons and comparisons held in locals too). NOT decided: the remaining "
     "planting / harvest year arithmetic itself (numeric).")
 
 L = frozenset
@@ -184,6 +184,36 @@ def rule_b(chk, prog):
     chk.floor("C07.b-forms", len(forms), 2, "assignments of the time-step counter")
     chk.assume("A-5")
     chk.assume("A-6")
+    chk.assume("A-1")
+
+
+def finished_at_window_end(chk, prog, rule: str):
+    """(shared with C16.m) in every abstract clock state in which the step just taken ends on or after the end date, the termination test
+    returns True: update_time would otherwise read time_span[counter + 2], one past the last entry (IndexError on the last day of the window)."""
+    chkf = prog.find_func("check_model_is_finished")
+    root = prog.func(STEP_ROOT)
+    chk.fn(chkf.key)
+    call = [c for c, t in prog.calls_in(root) if getattr(t, "key", None) == chkf.key]
+    if len(call) != 1:
+        raise AnalysisError("expected one call of check_model_is_finished in _perform_timestep")
+    fm = {a.attr: chkf.params[i] for i, a in enumerate(call[0].args) if isinstance(a, ast.Attribute)}
+    if any(k not in fm for k in ["step_end_time", "simulation_end_date", "season_counter", "n_seasons", "harvest_flag"]):
+        raise AnalysisError("check_model_is_finished is no longer called with the clock fields and the harvest flag")
+    n = 0
+    where = f"{chkf.module}:{chkf.qualname}"
+    for hf, rs, rt in itertools.product((True, False), ("<", "="), ("=", ">")):
+        n += 1
+        label = f"harvest_flag={hf}, season_counter{rs}n_seasons-1, step_end_time{'==' if rt == '=' else '>'}end"
+        chk.valuation(label)
+        facts = [(fm["season_counter"], f"({fm['n_seasons']}-1)", L(rs)), (fm["step_end_time"], fm["simulation_end_date"], L(rt))]
+        it = Interp(prog, chkf, domains=DOMAINS, param_vals={fm["harvest_flag"]: Const(hf)}, init_facts=facts, part_key="bound").run()
+        vals = {repr(v) for v, _, _ in it.returns}
+        if vals == {"Const(True)"}:
+            chk.ok(rule, where, label, "the run is finished: no step beyond the window", nontrivial=True)
+        else:
+            chk.violation(rule, where, label, f"the step just taken ends on/after the end date but the run is not declared finished (returns {sorted(vals)}): "
+                          "update_time then reads the day after the last entry of time_span (IndexError on the last day of the window)", loc=chkf.loc())
+    chk.floor(rule, n, 8, "abstract clock states at the end of the window")
     chk.assume("A-1")
 
 
@@ -378,23 +408,29 @@ def rule_g(chk, prog):
         return bool(ds) and all(d != ENTRY and isinstance(cfg.nodes[d].ast, ast.Assign)
                                 and any(isinstance(x, ast.Attribute) and x.attr == attr for x in ast.walk(cfg.nodes[d].ast.value)) for d in ds)
     n = 0
-    for t in cfg.live_nodes():
-        c = t.ast
-        if t.kind != "test" or not isinstance(c, ast.Compare) or len(c.ops) != 1:
+    flip = {ast.Lt: ast.Gt, ast.LtE: ast.GtE, ast.Gt: ast.Lt, ast.GtE: ast.LtE}
+    for c in walk_no_nested(step.node):
+        # every ordering comparison, wherever it stands (a test, or the value of a local); chains `a <= b < c` are taken pair by pair
+        if not isinstance(c, ast.Compare):
             continue
-        l, r = c.left, c.comparators[0]
-        if not (isinstance(l, ast.Name) and isinstance(r, ast.Name)):
+        at = flow.node_of(c)
+        if at is None:
             continue
-        for h, d, op in ((l, r, c.ops[0]), (r, l, {ast.Lt: ast.Gt(), ast.LtE: ast.GtE(), ast.Gt: ast.Lt(), ast.GtE: ast.LtE()}.get(type(c.ops[0]), c.ops[0]))):
-            if from_attr(h.id, "harvest_dates", t.id) and from_attr(d.id, "step_start_time", t.id):
-                n += 1
-                construct = f"{norm(c)} (harvest date against the step's start)"
-                if isinstance(op, ast.Gt):
-                    chk.ok("C07.g", STEP_FN, construct, "a step starting on the harvest date is outside the season: the last growing day is the one whose summary is written")
-                else:
-                    chk.violation("C07.g", STEP_FN, construct, "the growing-season window includes the step that STARTS on the harvest date, but the season's summary "
-                                  "is written on the step that ENDS on it: with off-season simulation one more growing day follows the summary row (the "
-                                  "season is a day longer than without, seasonal totals miss that day)", loc=step.loc(c))
+        operands = [c.left] + list(c.comparators)
+        for i, op0 in enumerate(c.ops):
+            l, r = operands[i], operands[i + 1]
+            if not (isinstance(l, ast.Name) and isinstance(r, ast.Name)) or type(op0) not in flip:
+                continue
+            for h, d, op in ((l, r, type(op0)), (r, l, flip[type(op0)])):
+                if from_attr(h.id, "harvest_dates", at) and from_attr(d.id, "step_start_time", at):
+                    n += 1
+                    construct = f"{norm(c)} (harvest date against the step's start)"
+                    if op is ast.Gt:
+                        chk.ok("C07.g", STEP_FN, construct, "a step starting on the harvest date is outside the season: the last growing day is the one whose summary is written")
+                    else:
+                        chk.violation("C07.g", STEP_FN, construct, "the growing-season window includes the step that STARTS on the harvest date, but the season's summary "
+                                      "is written on the step that ENDS on it: with off-season simulation one more growing day follows the summary row (the "
+                                      "season is a day longer than without, seasonal totals miss that day)", loc=step.loc(c))
     chk.floor("C07.g", n, 1, "comparisons of the harvest date with the step start")
     # the summary trigger compares the harvest date with the step END by equality
     trig = [t for t in cfg.live_nodes() if t.kind == "test" and isinstance(t.ast, ast.Compare) and isinstance(t.ast.ops[0], ast.Eq)
@@ -404,6 +440,99 @@ def rule_g(chk, prog):
         chk.ok("C07.g", STEP_FN, norm(trig[0].ast)[:80], "summary written on the step that ends on the harvest date")
     else:
         chk.violation("C07.g", STEP_FN, "harvest_dates[season] == step_end_time", "the summary is no longer triggered by the step that ends on the harvest date", loc=step.loc())
+
+
+def season_flag_guards(chk, prog, rule: str):
+    """(C07.l, shared with C13.j) the step's `growing_season = True` is reached only under all four conditions of a live season: planting date
+    reached, harvest date not reached, crop not mature, crop not dead. The conditions are collected from the transitive control dependences of the
+    store; a test on a local is expanded through the local's single definition, conjunctions and chained comparisons are taken apart. A season
+    that goes on after the crop has died (or matured) keeps irrigating and transpiring a field whose harvest has already been reported."""
+    step = prog.func(STEP_FN)
+    flow = flow_of(step)
+    cfg = flow.cfg
+    where = STEP_FN
+
+    def atoms(e, at, depth=0):
+        if isinstance(e, ast.BoolOp) and isinstance(e.op, ast.And):
+            return [a for v in e.values for a in atoms(v, at, depth)]
+        if isinstance(e, ast.Name) and at is not None and depth < 5:
+            ds = [d for d in flow.defs_reaching(e.id, at) if d != ENTRY]
+            a = cfg.nodes[ds[0]].ast if len(ds) == 1 else None
+            if isinstance(a, ast.Assign) and isinstance(a.value, (ast.BoolOp, ast.Compare, ast.UnaryOp, ast.Name)):
+                return atoms(a.value, ds[0], depth + 1)
+        return [(e, at)]
+
+    def says_false(e, attr):
+        """does the atom assert that <obj>.<attr> is false?"""
+        def is_attr(x):
+            return isinstance(x, ast.Attribute) and x.attr == attr
+        if isinstance(e, ast.UnaryOp) and isinstance(e.op, ast.Not) and is_attr(e.operand):
+            return True
+        if isinstance(e, ast.Compare) and len(e.ops) == 1 and is_attr(e.left) and isinstance(e.comparators[0], ast.Constant):
+            v, op = e.comparators[0].value, e.ops[0]
+            return (v is False and isinstance(op, (ast.Is, ast.Eq))) or (v is True and isinstance(op, (ast.IsNot, ast.NotEq)))
+        return False
+
+    def date_pairs(e, at):
+        """ordering facts (a, op, b) of an atom, with the provenance of each side"""
+        out = []
+        if isinstance(e, ast.Compare):
+            ops_ = [e.left] + list(e.comparators)
+            for i, op in enumerate(e.ops):
+                out.append((ops_[i], type(op), ops_[i + 1]))
+        return out
+
+    def prov(x, at):
+        tags = set()
+        for y in ast.walk(x):
+            if isinstance(y, ast.Attribute) and y.attr in ("planting_dates", "harvest_dates", "step_start_time"):
+                tags.add(y.attr)
+            if isinstance(y, ast.Name) and at is not None:
+                for d in flow.defs_reaching(y.id, at):
+                    a = cfg.nodes[d].ast if d != ENTRY else None
+                    if isinstance(a, ast.Assign):
+                        for z in ast.walk(a.value):
+                            if isinstance(z, ast.Attribute) and z.attr in ("planting_dates", "harvest_dates", "step_start_time"):
+                                tags.add(z.attr)
+        return tags
+
+    sites = 0
+    for a in walk_no_nested(step.node):
+        if not (isinstance(a, ast.Assign) and len(a.targets) == 1 and isinstance(a.targets[0], ast.Name) and a.targets[0].id == "growing_season"
+                and isinstance(a.value, ast.Constant) and a.value.value is True):
+            continue
+        nid = flow.stmt_node.get(id(a))
+        if nid is None:
+            continue
+        sites += 1
+        have = set()
+        for t, lab in cfg.transitive_control_deps(nid):
+            tn = cfg.nodes[t]
+            if tn.kind != "test" or lab is not True:
+                continue
+            for e, at in atoms(tn.ast, t):
+                for fld in ("crop_dead", "crop_mature"):
+                    if says_false(e, fld):
+                        have.add(fld)
+                for l, op, r in date_pairs(e, at):
+                    pl, pr = prov(l, at), prov(r, at)
+                    if (pl == {"planting_dates"} and pr == {"step_start_time"} and op in (ast.LtE,)) or \
+                            (pr == {"planting_dates"} and pl == {"step_start_time"} and op in (ast.GtE,)):
+                        have.add("planting date reached")
+                    if (pl == {"harvest_dates"} and pr == {"step_start_time"} and op in (ast.Gt, ast.GtE)) or \
+                            (pr == {"harvest_dates"} and pl == {"step_start_time"} and op in (ast.Lt, ast.LtE)):
+                        have.add("harvest date not reached")
+        need = ["planting date reached", "harvest date not reached", "crop_mature", "crop_dead"]
+        missing = [x for x in need if x not in have]
+        construct = f"{norm(a)} at line-independent site #{sites}"
+        construct = f"{norm(a)} (guards: {', '.join(x for x in need if x in have) or 'none'})"
+        if not missing:
+            chk.ok(rule, where, construct, "in season only between planting and harvest date with a crop that is neither mature nor dead")
+        else:
+            chk.violation(rule, where, construct, "the growing-season flag is set without the condition(s) " + ", ".join(
+                ("not " + m) if m.startswith("crop_") else m for m in missing) + ": the days after the crop has died / matured (harvest already "
+                "reported) still count as in season - irrigation goes on, days after planting keep counting", loc=step.loc(a))
+    chk.floor(rule, sites, 1, "stores `growing_season = True` in the step")
 
 
 def _int_ub(e):
@@ -539,6 +668,152 @@ def rule_j(chk, prog):
     chk.floor("C07.j", len(forms), 2, "tests of the season counter against the number of seasons in update_time")
 
 
+def _provenance(f, flow, e, nid, depth=0, seen=None):
+    """names of the date inputs an expression is computed from, through the locals' reaching definitions"""
+    seen = set() if seen is None else seen
+    out = set()
+    for x in ast.walk(e):
+        if isinstance(x, ast.Attribute) and x.attr in ("planting_date", "planting_dates"):
+            out.add("PLANT")
+        elif isinstance(x, ast.Attribute) and x.attr in ("harvest_date", "harvest_dates"):
+            out.add("HARVEST")
+        elif isinstance(x, ast.Attribute) and x.attr == "simulation_end_date":
+            out.add("END")
+        elif isinstance(x, ast.Attribute) and x.attr == "simulation_start_date":
+            out.add("START")
+        elif isinstance(x, ast.Name) and isinstance(x.ctx, ast.Load) and nid is not None and depth < 6:
+            for d in flow.defs_reaching(x.id, nid):
+                if d == ENTRY or (x.id, d) in seen:
+                    continue
+                seen.add((x.id, d))
+                a = flow.cfg.nodes[d].ast
+                v = getattr(a, "value", None)
+                if isinstance(a, (ast.Assign, ast.AnnAssign, ast.AugAssign)) and v is not None:
+                    out |= _provenance(f, flow, v, d, depth + 1, seen)
+    return out
+
+
+def rule_k(chk, prog):
+    """C07.k (seasons begin on the planting day of consecutive years, and the run ends on the day before the end date): for a crop whose season lies
+    within a calendar year, read_model_parameters drops the last calendar year of the window from the schedule when no season starts in it. The
+    statement that takes one off the last year must be controlled by a comparison of the END date (month/day) with the PLANTING date - not with the
+    start date or the harvest date - and it must execute exactly when end <= planting: the end date itself is not simulated, so a planting day equal
+    to the end date starts nothing. The test is resolved through single-definition locals and negations."""
+    f = prog.find_func("read_model_parameters")
+    flow = flow_of(f)
+    where = f"{f.module}:{f.qualname}"
+    chk.fn(f.key)
+    parents = {}
+    for n in ast.walk(f.node):
+        for c in ast.iter_child_nodes(n):
+            parents[id(c)] = n
+    # locals of the function that hold the two dates of the window
+    alias = {}
+    for n in walk_no_nested(f.node):
+        if isinstance(n, ast.Assign) and len(n.targets) == 1 and isinstance(n.targets[0], ast.Name) and isinstance(n.value, ast.Attribute) \
+                and n.value.attr in ("simulation_end_date", "simulation_start_date"):
+            alias[n.targets[0].id] = "END" if n.value.attr == "simulation_end_date" else "START"
+
+    def prov(e, nid):
+        out = _provenance(f, flow, e, nid)
+        for x in ast.walk(e):
+            if isinstance(x, ast.Name) and x.id in alias:
+                out.add(alias[x.id])
+        # locals defined from the aliases
+        return out
+
+    def prov_deep(e, nid, seen=None, depth=0):
+        seen = set() if seen is None else seen
+        out = prov(e, nid)
+        if depth < 6 and nid is not None:
+            for x in ast.walk(e):
+                if isinstance(x, ast.Name) and isinstance(x.ctx, ast.Load) and x.id not in alias:
+                    for d in flow.defs_reaching(x.id, nid):
+                        if d == ENTRY or (x.id, d) in seen:
+                            continue
+                        seen.add((x.id, d))
+                        a = flow.cfg.nodes[d].ast
+                        v = getattr(a, "value", None)
+                        if isinstance(a, (ast.Assign, ast.AnnAssign, ast.AugAssign)) and v is not None:
+                            out |= prov_deep(v, d, seen, depth + 1)
+        return out
+
+    sites = 0
+    for n in walk_no_nested(f.node):
+        # `T = T - 1` / `T -= 1` on a year taken from the end date
+        tgt = None
+        if isinstance(n, ast.AugAssign) and isinstance(n.op, ast.Sub) and isinstance(n.value, ast.Constant) and n.value.value == 1:
+            tgt = n.target
+        elif isinstance(n, ast.Assign) and len(n.targets) == 1 and isinstance(n.value, ast.BinOp) and isinstance(n.value.op, ast.Sub) \
+                and isinstance(n.value.right, ast.Constant) and n.value.right.value == 1 and norm(n.value.left) == norm(n.targets[0]):
+            tgt = n.targets[0]
+        if tgt is None:
+            continue
+        nid = flow.stmt_node.get(id(n))
+        base = tgt
+        while isinstance(base, ast.Subscript):
+            base = base.value
+        load = ast.Name(id=base.id, ctx=ast.Load()) if isinstance(base, ast.Name) else None
+        if load is None or nid is None:
+            continue
+        # provenance of the decremented variable: its reaching definitions
+        pv = set()
+        for d in flow.defs_reaching(load.id, nid):
+            if d == ENTRY:
+                continue
+            a = flow.cfg.nodes[d].ast
+            v = getattr(a, "value", None)
+            if v is not None:
+                pv |= prov_deep(v, d)
+        if "END" not in pv:
+            continue
+        sites += 1
+        construct = norm(n)
+        # the controlling test
+        child, par = n, parents.get(id(n))
+        while par is not None and not isinstance(par, ast.If):
+            child, par = par, parents.get(id(par))
+        if par is None:
+            chk.violation("C07.k", where, construct, "the last year of the window is dropped unconditionally", loc=f.loc(n))
+            continue
+        positive = any(child is x for x in par.body)
+        test, tnid = par.test, flow.node_of(par.test)
+        for _ in range(6):
+            if isinstance(test, ast.UnaryOp) and isinstance(test.op, ast.Not):
+                test, positive = test.operand, not positive
+            elif isinstance(test, ast.Name) and (tnid is not None or flow.node_of(test) is not None):
+                tnid = tnid if tnid is not None else flow.node_of(test)
+                ds = [d for d in flow.defs_reaching(test.id, tnid) if d != ENTRY]
+                a = flow.cfg.nodes[ds[0]].ast if len(ds) == 1 else None
+                if isinstance(a, ast.Assign):
+                    test, tnid = a.value, ds[0]
+                else:
+                    break
+            else:
+                break
+        if not (isinstance(test, ast.Compare) and len(test.ops) == 1 and isinstance(test.ops[0], (ast.Lt, ast.LtE, ast.Gt, ast.GtE))):
+            chk.violation("C07.k", where, construct, f"the test that drops the last year (`{norm(par.test)}`) does not resolve to one ordering comparison of two dates", loc=f.loc(par))
+            continue
+        lp, rp = prov_deep(test.left, tnid), prov_deep(test.comparators[0], tnid)
+        op = type(test.ops[0])
+        if not positive:
+            op = {ast.Lt: ast.GtE, ast.LtE: ast.Gt, ast.Gt: ast.LtE, ast.GtE: ast.Lt}[op]
+        if "PLANT" in lp and "END" in rp and "END" not in lp:
+            lp, rp = rp, lp
+            op = {ast.Lt: ast.Gt, ast.LtE: ast.GtE, ast.Gt: ast.Lt, ast.GtE: ast.LtE}[op]
+        sym = {ast.Lt: "<", ast.LtE: "<=", ast.Gt: ">", ast.GtE: ">="}[op]
+        detail = f"{construct}  [executes when ({'/'.join(sorted(lp)) or '?'}) {sym} ({'/'.join(sorted(rp)) or '?'}); test `{norm(test)}`]"
+        if lp == {"END"} and rp == {"PLANT"} and op is ast.LtE:
+            chk.ok("C07.k", where, detail, "the last calendar year is dropped exactly when the end date (month/day) is on or before the planting day")
+        elif lp == {"END"} and rp == {"PLANT"}:
+            chk.violation("C07.k", where, detail, "the last calendar year must be dropped exactly when end <= planting day (the end date itself is not simulated): with this "
+                          "ordering a season is scheduled on a planting day the run never reaches, or the season of a planting day inside the window is never started", loc=f.loc(par))
+        else:
+            chk.violation("C07.k", where, detail, "the test that drops the last calendar year does not compare the end date with the planting date: whether a season starts in the "
+                          "last year depends on the planting day alone (a run that does not start on the planting day schedules a season beyond the end date, or loses one inside it)", loc=f.loc(par))
+    chk.floor("C07.k", sites, 1, "statements of read_model_parameters that drop the last calendar year of the window")
+
+
 def _affine_is(text: str, coefs, const) -> bool:
     """does the printed normal form consist of exactly the given atoms (by suffix) with these integer coefficients plus the constant?"""
     import re
@@ -572,4 +847,6 @@ def run(chk, prog, tier):
     rule_h(chk, prog)
     rule_i(chk, prog)
     rule_j(chk, prog)
+    rule_k(chk, prog)
+    season_flag_guards(chk, prog, "C07.l")
     chk.exhaustive = True
